@@ -249,10 +249,6 @@ class DataPacketReceiver(Elaboratable):
                     # Note that we'll only check for validity in positions we consider to have
                     # valid data; as we always expect our data packet payload to be followed by
                     # and "end of packet" set of control codes.
-                    with m.If((sink.ctrl & source.valid) != 0):
-                        m.d.comb += self.packet_bad.eq(1)
-                        m.next = "WAIT_FOR_HPSTART"
-
                     # Capture the current word and valid value, so we can refer to them in
                     # future states. This is necessary for CRC validation when we have a data payload
                     # that's not evenly divisible into words; see the instantiation of ``previous_word``.
@@ -261,9 +257,13 @@ class DataPacketReceiver(Elaboratable):
                         previous_valid  .eq(source.valid)
                     ]
 
+                    with m.If((sink.ctrl & source.valid) != 0):
+                        m.d.comb += self.packet_bad.eq(1)
+                        m.next = "WAIT_FOR_HPSTART"
+
                     # If we have another word to receive after this, decrement our count,
                     # and continue.
-                    with m.If(data_bytes_remaining > 4):
+                    with m.Elif(data_bytes_remaining > 4):
                         m.d.ss += data_bytes_remaining.eq(data_bytes_remaining - 4)
 
                     with m.Else():
